@@ -18,13 +18,15 @@ EXPLANATION = (
     "outline rows never share Step objects with the template. " + T.SOUNDNESS)
 NOT_DECIDED = ("that parse/re find the right step definition (C11); real timing; the semantics under "
                "continue_after_failed_step=True beyond verdict/bracket consistency; async step glue is decided "
-               "structurally only (S6)")
+               "structurally only (S6: a task waited for with asyncio.wait has its result()/exception() consumed)")
 ASSUMPTIONS = ["Step.run summary used inside Scenario.run is the one proved by S1/V1/F1"]
 
 
 def t_order(chk, ix):
     rules_order.check_step_order(chk, ix)
     rules_order.check_match_protection(chk, ix)
+    from .. import rules_generic
+    rules_generic.check_async_glue(chk, ix)
 
 
 def run(chk, ix, tier):
@@ -35,3 +37,4 @@ def run(chk, ix, tier):
     ])
     chk.require_instances("S1", 8)
     chk.require_instances("S3", 1)
+    chk.require_instances("S6", 1)
